@@ -22,6 +22,7 @@ import (
 	"github.com/tdewolff/canvas"
 	"github.com/tdewolff/canvas/renderers/pdf"
 	"github.com/tdewolff/canvas/renderers/ps"
+	"github.com/tdewolff/canvas/renderers/svg"
 
 	"verifharness/internal/cq"
 	"verifharness/internal/out"
@@ -205,6 +206,159 @@ func drawTerm(l layer, outline string) string {
 
 // ---------------------------------------------------------------------------------------------------------
 // tokenisers
+
+var svgPathRe = regexp.MustCompile(`<path d="([^"]*)"((?: [a-z-]+="[^"]*")*)/>`)
+var svgAttrRe = regexp.MustCompile(` ([a-z-]+)="([^"]*)"`)
+
+// svgColour reads the colour syntaxes CSSColor writes: #rgb, #rrggbb, rgba(r,g,b,a); kind 1 none, 2 colour, 3 url()
+func svgColour(v string) (kind int, rgb [3]int, alpha string, err error) {
+	alpha = "1"
+	switch {
+	case v == "none":
+		return 1, rgb, alpha, nil
+	case strings.HasPrefix(v, "url("):
+		return 3, [3]int{1, 0, 0}, alpha, nil
+	case strings.HasPrefix(v, "#") && len(v) == 4:
+		for k := 0; k < 3; k++ {
+			n, e := strconv.ParseUint(v[1+k:2+k], 16, 8)
+			if e != nil {
+				return 0, rgb, alpha, e
+			}
+			rgb[k] = int(n * 17)
+		}
+		return 2, rgb, alpha, nil
+	case strings.HasPrefix(v, "#") && len(v) == 7:
+		for k := 0; k < 3; k++ {
+			n, e := strconv.ParseUint(v[1+2*k:3+2*k], 16, 8)
+			if e != nil {
+				return 0, rgb, alpha, e
+			}
+			rgb[k] = int(n)
+		}
+		return 2, rgb, alpha, nil
+	case strings.HasPrefix(v, "rgba(") && strings.HasSuffix(v, ")"):
+		f := strings.Split(v[5:len(v)-1], ",")
+		if len(f) != 4 {
+			return 0, rgb, alpha, fmt.Errorf("bad colour %q", v)
+		}
+		for k := 0; k < 3; k++ {
+			n, e := strconv.Atoi(f[k])
+			if e != nil {
+				return 0, rgb, alpha, e
+			}
+			rgb[k] = n
+		}
+		a, e := decQ(f[3])
+		return 2, rgb, a, e
+	}
+	return 0, rgb, alpha, fmt.Errorf("unknown colour syntax %q", v)
+}
+
+// svgElements reads the <path> elements the SVG back-end wrote into svgel terms (Render/Backends.v)
+func svgElements(b []byte) ([]string, string, error) {
+	var els []string
+	var raw []string
+	for _, m := range svgPathRe.FindAllSubmatch(b, -1) {
+		raw = append(raw, string(m[0]))
+		p, err := canvas.ParseSVGPath(string(m[1]))
+		if err != nil {
+			return nil, "", fmt.Errorf("path data %q: %v", m[1], err)
+		}
+		geo, ok := pathGeo(p.ReplaceArcs())
+		if !ok {
+			return nil, "", fmt.Errorf("path data %q: not M/L/C/Z", m[1])
+		}
+		attrs := map[string]string{}
+		for _, a := range svgAttrRe.FindAllSubmatch(m[2], -1) {
+			attrs[string(a[1])] = string(a[2])
+		}
+		if st, ok := attrs["style"]; ok {
+			for _, kv := range strings.Split(st, ";") {
+				if i := strings.IndexByte(kv, ':'); i > 0 {
+					attrs[kv[:i]] = kv[i+1:]
+				}
+			}
+			delete(attrs, "style")
+		}
+		fk, frgb, fa := 0, [3]int{}, "1"
+		sk, srgb, sa := 0, [3]int{}, "1"
+		eo := false
+		optQ := func(k string) (string, error) {
+			v, ok := attrs[k]
+			if !ok {
+				return "None", nil
+			}
+			q, err := decQ(v)
+			return "(Some " + q + ")", err
+		}
+		var err2 error
+		if v, ok := attrs["fill"]; ok {
+			if fk, frgb, fa, err2 = svgColour(v); err2 != nil {
+				return nil, "", err2
+			}
+		}
+		if v, ok := attrs["stroke"]; ok {
+			if sk, srgb, sa, err2 = svgColour(v); err2 != nil {
+				return nil, "", err2
+			}
+		}
+		if v, ok := attrs["fill-rule"]; ok {
+			eo = v == "evenodd"
+		}
+		width, err := optQ("stroke-width")
+		if err != nil {
+			return nil, "", err
+		}
+		ml, err := optQ("stroke-miterlimit")
+		if err != nil {
+			return nil, "", err
+		}
+		off, err := optQ("stroke-dashoffset")
+		if err != nil {
+			return nil, "", err
+		}
+		capT, joinT, dashT := "None", "None", "None"
+		switch attrs["stroke-linecap"] {
+		case "round":
+			capT = "(Some 1%Z)"
+		case "square":
+			capT = "(Some 2%Z)"
+		case "butt":
+			capT = "(Some 0%Z)"
+		}
+		switch attrs["stroke-linejoin"] {
+		case "round":
+			joinT = "(Some 1%Z)"
+		case "bevel":
+			joinT = "(Some 2%Z)"
+		case "arcs":
+			joinT = "(Some 3%Z)"
+		case "miter":
+			joinT = "(Some 0%Z)"
+		}
+		if v, ok := attrs["stroke-dasharray"]; ok && v != "none" {
+			var ds []string
+			for _, f := range strings.FieldsFunc(v, func(r rune) bool { return r == ' ' || r == ',' }) {
+				q, err := decQ(f)
+				if err != nil {
+					return nil, "", err
+				}
+				ds = append(ds, q)
+			}
+			dashT = "(Some " + cq.List(ds) + ")"
+		}
+		for k := range attrs {
+			switch k {
+			case "fill", "stroke", "fill-rule", "stroke-width", "stroke-miterlimit", "stroke-dashoffset", "stroke-linecap", "stroke-linejoin", "stroke-dasharray":
+			default:
+				return nil, "", fmt.Errorf("unexpected attribute %q on a path element", k)
+			}
+		}
+		els = append(els, fmt.Sprintf("(mkSvg %s %d%%Z (%d, %d, %d)%%Z %s %s %d%%Z (%d, %d, %d)%%Z %s %s %s %s %s %s %s)", geo, fk, frgb[0], frgb[1], frgb[2], fa, cq.Bool(eo),
+			sk, srgb[0], srgb[1], srgb[2], sa, width, capT, joinT, ml, dashT, off))
+	}
+	return els, strings.Join(raw, "\n"), nil
+}
 
 func pdfContent(b []byte) ([]byte, map[string]string, error) {
 	// uncompressed single page: first stream object is the page content; ExtGState in the page dictionary
@@ -563,13 +717,17 @@ func main() {
 			ctx.SetStrokeJoiner(rng.Pick(r, []canvas.Joiner{canvas.BevelJoin, canvas.MiterJoin, canvas.MiterJoin, canvas.RoundJoin,
 				canvas.MiterJoiner{GapJoiner: canvas.BevelJoin, Limit: 10}, canvas.MiterJoiner{GapJoiner: canvas.BevelJoin, Limit: 2},
 				canvas.MiterClipJoin, canvas.MiterJoiner{GapJoiner: canvas.BevelJoin, Limit: math.NaN()}, canvas.MiterJoiner{GapJoiner: canvas.RoundJoin, Limit: 4}}))
-			switch r.Intn(5) {
+			switch r.Intn(7) {
 			case 0:
 				ctx.SetDashes(0, 2, 1)
 			case 1:
 				ctx.SetDashes(rng.Pick(r, []float64{0.5, -0.5, 1, -4}), 2, 1)
 			case 2:
 				ctx.SetDashes(0.25, 1, 0.5, 2)
+			case 3: // odd number of entries with a negative offset: doubled array, phase raised by whole (doubled) periods
+				ctx.SetDashes(rng.Pick(r, []float64{-0.5, -1.25, -3, -3.5, -5.25, -7.5}), 1, 0.5, 2)
+			case 4:
+				ctx.SetDashes(rng.Pick(r, []float64{-0.5, -1, -2.5, 1.5}), 1.5)
 			default:
 				ctx.SetDashes(0)
 			}
@@ -588,7 +746,8 @@ func main() {
 		if len(rec.layers) == 0 {
 			continue
 		}
-		var drawsW, drawsRef, layerDesc []string
+		var drawsW, drawsRef, drawsRefSvg, layerDesc []string
+		svgRefErr := ""
 		arcs := false
 		strokePanic := ""
 		for _, l := range rec.layers {
@@ -611,6 +770,36 @@ func main() {
 			}
 			drawsW = append(drawsW, drawTerm(l, "((9%Z, nil) :: nil)"))
 			drawsRef = append(drawsRef, drawTerm(l, ref))
+			// SVG: the reference outline goes through the same printing (8 significant digits) and parsing as the element
+			// it is compared with (printing/parsing are C11's subject), in SVG space, and is flipped back
+			refS := "nil"
+			if l.style.HasStroke() && strokePanic == "" {
+				func() {
+					defer func() {
+						if e := recover(); e != nil {
+							svgRefErr = fmt.Sprintf("reference outline for SVG: %v", e)
+						}
+					}()
+					flip := canvas.Identity.ReflectYAbout(H / 2.0)
+					s0 := l.path
+					if 0 < len(l.style.Dashes) {
+						off, ds := canvas.ScaleDash(l.style.StrokeWidth, l.style.DashOffset, l.style.Dashes)
+						s0 = s0.Dash(off, ds...)
+					}
+					s0 = s0.Stroke(l.style.StrokeWidth, l.style.StrokeCapper, l.style.StrokeJoiner, canvas.Tolerance)
+					s0 = s0.Transform(flip.Mul(l.m))
+					q2, err := canvas.ParseSVGPath(s0.ToSVG())
+					if err != nil {
+						svgRefErr = "reference outline for SVG: " + err.Error()
+						return
+					}
+					var ok bool
+					if refS, ok = pathGeo(q2.ReplaceArcs().Transform(flip)); !ok {
+						svgRefErr = "reference outline for SVG: not M/L/C/Z"
+					}
+				}()
+			}
+			drawsRefSvg = append(drawsRefSvg, drawTerm(l, refS))
 			layerDesc = append(layerDesc, fmt.Sprintf("path=%s fill=%v stroke=%v width=%v cap=%v join=%v dashes=%v offset=%v rule=%v m=%v",
 				l.path.String(), l.style.Fill.Color, l.style.Stroke.Color, l.style.StrokeWidth, l.style.StrokeCapper, l.style.StrokeJoiner, l.style.Dashes, l.style.DashOffset, l.style.FillRule, l.m))
 		}
@@ -678,5 +867,39 @@ func main() {
 			}
 		}
 		emit("ps", "KPs", toks, raw, err, cq.Bool(arcs || hasArc))
+		// SVG (no writer model: the elements are interpreted and judged against the layers)
+		b, err = run(func() ([]byte, error) {
+			buf := &bytes.Buffer{}
+			so := svg.DefaultOptions
+			so.Compression = 0
+			p := svg.New(buf, W, H, &so)
+			c.RenderTo(p)
+			err := p.Close()
+			return buf.Bytes(), err
+		})
+		var els []string
+		raw = ""
+		if err == nil {
+			els, raw, err = svgElements(b)
+		}
+		if err == nil && svgRefErr != "" {
+			err = fmt.Errorf("%s", svgRefErr)
+		}
+		func() {
+			d := map[string]interface{}{}
+			for k, v := range desc {
+				d[k] = v
+			}
+			d["operators"] = raw
+			if err == nil && strokePanic != "" {
+				err = fmt.Errorf("%s", strokePanic)
+			}
+			if err != nil {
+				d["harness_error"] = err.Error()
+				o.Emit(out.Case{I: i, Fam: "svg", Coq: "KBad12", Desc: d})
+				return
+			}
+			o.Emit(out.Case{I: i, Fam: "svg", Coq: fmt.Sprintf("KSvg %s %s %s", cq.List(drawsRefSvg), cq.List(els), cq.F(H)), Desc: d})
+		}()
 	}
 }
